@@ -202,7 +202,7 @@ impl PoolHist {
         let mut all_cp = true;
         for (k, (pid, din, dout)) in legs.iter().enumerate() {
             let b0 = sim.w.balance(&who, dout);
-            let step = sim.step(&POp::SwapExact { user, pool_id: pid.clone(), offer_denom: din.clone(), ask_denom: dout.clone(), amount: amt });
+            let step = sim.step(&POp::SwapExact { user, pool_id: pid.clone(), offer_denom: din.clone(), ask_denom: dout.clone(), amount: amt, huge_belief: false });
             classify(&step, st);
             features_update(f, &step);
             run_monitors(&self.mon, sim, &step, st)?;
@@ -225,6 +225,38 @@ impl PoolHist {
             amt = sim.w.balance(&who, dout) - b0;
             if amt == 0 {
                 break;
+            }
+            // between the legs the trader may throw in degenerate swaps: offers of the asset they
+            // will buy back that are too small to buy a single unit (they deliver nothing; with a
+            // belief price nothing falls short of, the protection lets them through). Whatever
+            // they do to the pool, the trip as a whole must not end with a profit.
+            if k + 1 < legs.len() && close % 3 != 0 {
+                for _ in 0..(1 + close % 3) {
+                    let o = sim.obs();
+                    let Some(pv) = o.pools.get(pid) else { break };
+                    let (Some(si), Some(di)) = (pv.idx(&start), pv.idx(dout)) else { break };
+                    if si == di || pv.reserves[di] == 0 {
+                        break;
+                    }
+                    // the largest offer that still buys nothing on a constant-product pool is just
+                    // under reserve(start)/reserve(other); elsewhere one unit
+                    let d = if matches!(pv.kind, Kind::Cp) { (pv.reserves[si] / pv.reserves[di]).saturating_sub(1).max(1) } else { 1 };
+                    let d = d.min(sim.w.balance(&who, &start));
+                    if d == 0 {
+                        break;
+                    }
+                    let quoted_nothing = sim.w.simulate(pid, cosmwasm_std::coin(d, &start), dout).map(|q| q.return_amount.is_zero()).unwrap_or(false);
+                    if !quoted_nothing {
+                        break;
+                    }
+                    let step = sim.step(&POp::SwapExact { user, pool_id: pid.clone(), offer_denom: start.clone(), ask_denom: dout.clone(), amount: d, huge_belief: true });
+                    classify(&step, st);
+                    features_update(f, &step);
+                    run_monitors(&self.mon, sim, &step, st)?;
+                    if step.ok() {
+                        st.bump("round trips with a swap that delivers nothing in between");
+                    }
+                }
             }
         }
         let after = sim.obs().snap;
